@@ -388,3 +388,85 @@ def replay(rec):
     q = [q for q in f().live_queries if q[0] == rec["rule"]][0] if cyc else None
     rp = replay_stock(f, [tuple_deep(c) for c in rec["trace"]], cyc, q)
     return dict(cfg=rec["cfg"], rule=rec["rule"], reproduced=rp["reproduced"], err=rp["err"], path=rp["path"], cycles=rp["cycles"])
+
+
+# ---------------------------------------------------------------------------------------------------
+# wishbone.Remapper: purely combinational, every address of a small space (origin/size and region lists)
+# ---------------------------------------------------------------------------------------------------
+from litex.soc.integration.soc import SoCRegion as _SoCRegion
+from fsmc.design import Design as _Design
+
+REMAP = {
+    "Remapper(origin=0x100,size=0x100,word)": dict(addressing="word", origin=0x100, size=0x100),
+    "Remapper(origin=0x200,size=0x80,byte)": dict(addressing="byte", origin=0x200, size=0x80),
+    "Remapper(size=0x800 + regions 0x40+0x40->0x300, 0x100+0x20->0x80,byte)": dict(addressing="byte", size=0x800, src=[(0x40, 0x40), (0x100, 0x20)], dst=[(0x300, 0x40), (0x80, 0x20)]),
+    "Remapper(regions 0x40+0x40->0x300,word)": dict(addressing="word", src=[(0x40, 0x40)], dst=[(0x300, 0x40)]),
+    "Remapper(regions 0x40+0x40->0x300,byte)+byte_default_size": dict(addressing="byte", src=[(0x40, 0x40)], dst=[(0x300, 0x40)]),
+    "Remapper(origin=0x400,size=0x200 + region 0x480+0x40->0x40,word)": dict(addressing="word", origin=0x400, size=0x200, src=[(0x480, 0x40)], dst=[(0x40, 0x40)]),
+}
+
+
+def remap_ref(byte_adr, aw, origin, size, src, dst):
+    """documented function: initial origin/mask remap, then region-based remap (on byte addresses)"""
+    if size is None:
+        size = 1 << aw
+    a = origin | (byte_adr & (size - 1))
+    for (so, ss), (do, ds) in zip(src, dst):
+        if so <= a < so + ss:
+            return do + a - so          # later regions override earlier ones (last assignment wins)
+    return a
+
+
+def run_remapper(name):
+    kw = REMAP[name]
+    aw = 11
+    dw = 32
+    class W(Module):
+        def __init__(self):
+            self.m = wishbone.Interface(data_width=dw, address_width=aw, addressing=kw["addressing"])
+            self.s = wishbone.Interface(data_width=dw, address_width=aw, addressing=kw["addressing"])
+            self.submodules.r = wishbone.Remapper(self.m, self.s, origin=kw.get("origin", 0), size=kw.get("size"),
+                                                  src_regions=[_SoCRegion(origin=o, size=s) for o, s in kw.get("src", [])],
+                                                  dst_regions=[_SoCRegion(origin=o, size=s) for o, s in kw.get("dst", [])])
+    w = W()
+    D = _Design(w)
+    mi, si = D.i(w.m.adr), D.i(w.s.adr)
+    shift = 2 if kw["addressing"] == "word" else 0
+    n = viol = 0
+    first = None
+    src, dst = kw.get("src", []), kw.get("dst", [])
+    # regions are applied in order, a later active region overrides an earlier one
+    for adr in range(1 << len(w.m.adr)):
+        v = D.load(())
+        v[mi] = adr
+        D.fs.settle()
+        got = v[si]
+        a = remap_ref(adr << shift, aw, kw.get("origin", 0), kw.get("size"), list(reversed(src)), list(reversed(dst)))
+        exp = (a >> shift) & ((1 << len(w.s.adr)) - 1)
+        n += 1
+        if n % 97 == 0:
+            D.conform((), list(v), list(v), ())
+        if got != exp and first is None:
+            first = dict(rule="remap.address", msg=f"master adr {adr:#x} -> slave adr {got:#x}, documented mapping gives {exp:#x}", detail=dict(adr=adr))
+    return dict(cfg=name, states=n, transitions=n, conformed=n//97, exhaustive=True, violations=[first] if first else [],
+                sample=[dict(master_adr=5, addressing=kw["addressing"])])
+
+
+_configs0, _run0, _replay0 = configs, run_config, replay
+
+
+def configs(tier):
+    return _configs0(tier) + [(n,) for n in REMAP]
+
+
+def run_config(cfg, seed, tier):
+    if cfg[0] in REMAP:
+        return run_remapper(cfg[0])
+    return _run0(cfg, seed, tier)
+
+
+def replay(rec):
+    if rec["cfg"] in REMAP:
+        r = run_remapper(rec["cfg"])
+        return dict(cfg=rec["cfg"], rule=rec["rule"], reproduced=bool(r["violations"]))
+    return _replay0(rec)
